@@ -561,6 +561,15 @@ class FieldStorageParser:
         self.skip_lines()
         return [FieldStorage(key, value) for key, value in query]
 
+    def _readline(self, size=-1):
+        """Internal: read one line, but never behind the limit."""
+        if self.limit is not None and self.limit >= 0:
+            rest = max(self.limit - self.bytes_read, 0)
+            size = rest if size < 0 else min(size, rest)
+        line = self.input.readline(size)
+        self.bytes_read += len(line)
+        return line
+
     def _skip_to_boundary(self):
         """Check and read file until we've hit our inner boundary."""
         if not valid_boundary(self.innerboundary):
@@ -568,18 +577,16 @@ class FieldStorageParser:
                    f'{repr(self.innerboundary)}')
             raise ValueError(msg)
 
-        first_line = self.input.readline()  # bytes
+        first_line = self._readline()  # bytes
         if not isinstance(first_line, bytes):
             msg = (f"{self.input} should return bytes, "
                    f"got {type(first_line).__name__}")
             raise ValueError(msg)
-        self.bytes_read += len(first_line)
 
         # Ensure that we consume the file until we've hit our inner boundary
         while (first_line.strip() != (b"--" + self.innerboundary) and
                 first_line):
-            first_line = self.input.readline()
-            self.bytes_read += len(first_line)
+            first_line = self._readline()
 
     def read_multi(self):
         """Internal: read a part that is itself multipart."""
@@ -591,14 +598,13 @@ class FieldStorageParser:
             parser = FeedParser()
             hdr_text = b""
             while True:
-                data = self.input.readline()
+                data = self._readline()
                 hdr_text += data
                 if not data.strip():
                     break
             if not hdr_text:
                 break
             # parser takes strings, not bytes
-            self.bytes_read += len(hdr_text)
             parser.feed(hdr_text.decode(self.encoding, self.errors))
             headers = parser.close()
 
@@ -694,8 +700,7 @@ class FieldStorageParser:
     def read_lines_to_eof(self, file):
         """Internal: read lines until EOF."""
         while 1:
-            line = self.input.readline(1 << 16)
-            self.bytes_read += len(line)
+            line = self._readline(1 << 16)
             if not line:
                 self.done = -1
                 break
@@ -716,8 +721,7 @@ class FieldStorageParser:
 
             if self.limit is not None and 0 <= self.limit <= _read:
                 break
-            line = self.input.readline(1 << 16)
-            self.bytes_read += len(line)
+            line = self._readline(1 << 16)
             _read += len(line)
             if not line:
                 self.done = -1
@@ -761,8 +765,7 @@ class FieldStorageParser:
         last_boundary = next_boundary + b"--"
         last_line_lfend = True
         while True:
-            line = self.input.readline(1 << 16)
-            self.bytes_read += len(line)
+            line = self._readline(1 << 16)
             if not line:
                 self.done = -1
                 break
